@@ -81,9 +81,14 @@ pub fn quiet_panics() {
         if IN_GUARD.with(|g| g.get()) {
             return;
         }
+        let (op, input, len) = slot::read(slot::my_index());
+        *LAST_PANIC.lock().unwrap_or_else(|e| e.into_inner()) = Some((format!("{}", info), op.to_string(), input, len));
         default(info)
     }));
 }
+
+/// The last panic that was not caught by `guard` (message, current op, current input prefix, input length).
+pub static LAST_PANIC: std::sync::Mutex<Option<(String, String, Vec<u8>, usize)>> = std::sync::Mutex::new(None);
 
 thread_local! {
     static IN_GUARD: std::cell::Cell<bool> = const { std::cell::Cell::new(false) };
